@@ -48,7 +48,7 @@ def book_gen(ck, name, cfg=GEN_DRAIN, need=(), timeout=600, workers=12, **kw):
         extra["price_offset"] = c.pop("price_offset")
     if "vol_scale" in kw:
         extra["vol_scale"] = c.pop("vol_scale")
-    for k in ("time_scale", "time_offset"):
+    for k in ("time_scale", "time_offset", "price_scale"):
         if k in kw:
             extra[k] = c.pop(k)
     return ck.gen(name, "BookGen", c, "replay_book", rb_args(c, **extra), cfg=cfg, need=need, timeout=timeout, workers=workers)
@@ -134,6 +134,12 @@ def cross(ck, q, *names):
             for side in ("B", "A"):
                 book_gen(ck, "x_long_queue_" + side, Ops=["cap"], Sides=[side], Prices=[10], Vols=[1, 2], Kinds=["L"], MaxOrders=10, MaxOps=10,
                          need=(), timeout=300)
+        elif nm == "coarse_grid":
+            # coarse-grid regime (DESIGN.md 3.6): a tick size of 10^9 (prices 0, 1, 2, 3 ticks = up to 3 * 10^9, level walks that leave
+            # the 32-bit range after the first step), off-grid creations next to on-grid ones
+            book_gen(ck, "x_coarse_grid", cfg=GEN, Ops=["cap", "cancel", "modify"], Tick=2, NLevels=3, Prices=[2, 3, 4, 6], Vols=[1, 2], Kinds=["L", "M"] if not q else ["L"], ModPrices=[-1, 4],
+                     ModVols=["none", "smaller"], price_scale=500000000, MaxOrders=3, MaxOps=4 if q else 5, need=("has_trade", "two_sided", "op_modify", "create_rejected"),
+                     timeout=300 if q else 1500)
         elif nm == "big_volumes":
             # large-volume regime (DESIGN.md 3.6): one specification unit of volume is 1.3 * 10^9 in the real book, so single volumes
             # and volume changes exceed 2^31 while per-side totals and the traded volume stay below 2^32 (VolCap = 3 units)
@@ -253,7 +259,7 @@ def c02(tier, seed):
              MaxOrders=3, MaxOps=3 if q else 4, need=("two_sided", "has_trade"), timeout=300 if q else 1500)
     book_gen(ck, "gen_views_reload", cfg=GEN, Ops=["cap", "cancel", "reload"], NLevels=1, Prices=[10, 11], Vols=[1, 3],
              MaxOrders=3, MaxOps=4 if q else 5, need=("two_sided", "op_reload"), timeout=300 if q else 1500)
-    cross(ck, q, "ties_deep", "ties_modify", "split_modify", "big_volumes")
+    cross(ck, q, "ties_deep", "ties_modify", "split_modify", "big_volumes", "coarse_grid")
     # every event of random histories: logged views = views recomputed by TLC from the logged order table alone
     prof = {"discipline": True, "audit_every": 1, "p_high_prices": 0.3, "w": {"toggle": 0.6, "reload": 0.4, "modify": 4}}
     ck.traces_stage("rand_views", "record_book", prof, files=8 if q else 64, runs=3 if q else 6, ops=120)
@@ -443,6 +449,7 @@ def c12(tier, seed):
     # ... and ON the grid of tick 3 (3 divides 2^32 - 1): such a creation is accepted, on both sides (so is price 0)
     book_gen(ck, "gen_create_max_tick3", cfg=GEN, Ops=["cap", "create", "place"], Tick=3, Prices=[0, 9, MAXPRICE], Vols=[1], MaxOrders=3,
              MaxOps=3 if q else 4, need=("has_trade",), timeout=300)
+    cross(ck, q, "coarse_grid")
     # the ends of the price range: the lowest grid prices (levels reaching price 0, tick 2, four published levels) and
     # the grid points just below the maximum price (high-price regime, DESIGN.md 3.6): the per-level data accounts for all resting volume
     book_gen(ck, "gen_levels_low", cfg=GEN, Ops=["cap", "cancel"], Tick=2, NLevels=4, Prices=[0, 2, 6], Vols=[1, 2], Kinds=["L"],
